@@ -260,6 +260,10 @@ func genSplit(r *rand.Rand, i int) *wcase {
 	t, kind := g.text(size)
 	w.Text = []byte(t)
 	w.Titles = []string{kind}
+	if i%5 == 1 {
+		w.Boundaries = true
+		w.Titles = []string{kind + "+boundaries-reused"}
+	}
 	return w
 }
 
